@@ -411,6 +411,103 @@ def gen_cases(ctx, r, ciph, n_files, pairs, tag):
             yield (e1.__name__ + "+" + e2.__name__, body, off, key, r.random() < 0.8, comps)
 
 
+def stale_tampers(body, off, key, ciph, r):
+    """byte-level changes of a VALID body that leave every stored MAC field as it is
+    (payload changed under a stale payload MAC, entry fields changed under a stale entry MAC)"""
+    fs = L.parse_body(body, off, key, ciph)
+    dirsize = int.from_bytes(body[:4], "big")
+    out = []
+
+    def flip(pos, mask=None):
+        b = bytearray(body)
+        b[pos] ^= mask or (1 << r.randrange(8))
+        return bytes(b)
+    # payload positions
+    p = 4 + dirsize
+    spans = []
+    for f in fs:
+        spans.append((p, len(f["payload"])))
+        p += len(f["payload"])
+    for i, (st, ln) in enumerate(spans):
+        for name, pos in (("first", st), ("last", st + ln - 1), ("random", st + r.randrange(ln))):
+            out.append(("payload-%s-byte-changed,macs-unchanged" % name, flip(pos)))
+    for i in range(len(spans)):
+        for j in range(i + 1, len(spans)):
+            m = min(spans[i][1], spans[j][1])
+            a, c = body[spans[i][0]:spans[i][0] + m], body[spans[j][0]:spans[j][0] + m]
+            if a != c:
+                b = bytearray(body)
+                b[spans[i][0]:spans[i][0] + m], b[spans[j][0]:spans[j][0] + m] = c, a
+                out.append(("payload-bytes-swapped-between-components,macs-unchanged", bytes(b)))
+    # entry positions: length byte, then adr(4) total(4) actual(4) pmac(16) desclen(1) desc emac(16)
+    q = 4
+    for f in fs:
+        ln = body[q]
+        e = q + 1
+        out.append(("entry-actual-changed,entry-mac-unchanged", flip(e + 11, 1)))
+        out.append(("entry-payload-mac-field-changed,entry-mac-unchanged", flip(e + 12 + r.randrange(16))))
+        if ln > 45:
+            out.append(("entry-description-changed,entry-mac-unchanged", flip(e + 29 + r.randrange(ln - 45))))
+        out.append(("entry-mac-field-changed", flip(e + ln - 16 + r.randrange(16))))
+        q = e + ln
+    return out
+
+
+def ordered_cases(ctx, r, ciph, n_files, tag):
+    """order-sensitive sequences, all reads in this one process: the valid file FIRST, then its
+    variants with stale MAC fields, then the valid file again; and the reverse order (variants first,
+    also read once with the MAC check off, then the valid file).  The sixth element is the history
+    of the sequence so far [(body, check)], kept for the replay."""
+    for fi in range(n_files):
+        cm, comps = B.gen_file(r, enc_prob=0.2)
+        while not comps:
+            cm, comps = B.gen_file(r, enc_prob=0.2)
+        if fi % 2:
+            comps = [(d, b[:r.choice([2, 16, 17, 40])], None if a is None else min(a, len(b[:2])), e) for d, b, a, e in comps]
+        key = B.rkey(r)
+        off = r.choice(OFFS[:6])
+        w = run_impl(B.build(cm, comps).to_binary, off, key)
+        valid = emit(raw_of(comps, key, ciph), off, key, ciph)
+        if L.reader_accepts(valid, off, key, ciph)[0] is None:
+            continue
+        tampers = stale_tampers(valid, off, key, ciph, r)
+        ctx.dist[tag + ":ordered-sequences"] += 1
+        hist = []
+
+        def step(label, body, check):
+            item = ("ordered:" + label, body, off, key, check, list(hist))
+            hist.append((body, check))
+            return item
+        if fi % 2 == 0:
+            yield step("valid-first", valid, True)
+            if w[0] == "ok":
+                yield step("valid-written-by-implementation", w[1], True)
+            for name, body in tampers:
+                yield step("after-valid:" + name, body, True)
+            yield step("valid-again", valid, True)
+        else:
+            for name, body in tampers[:6]:
+                yield step("before-valid,check-off:" + name, body, False)
+            for name, body in tampers:
+                yield step("before-valid:" + name, body, True)
+            yield step("valid-after-tampered", valid, True)
+            for name, body in tampers[:4]:
+                yield step("after-valid:" + name, body, True)
+
+
+def ordered_text_cases(r, ciph, n):
+    """the same through read_file (text API): valid text, text with a changed last payload digit, valid text"""
+    for _ in range(n):
+        cm, comps = B.gen_file(r, enc_prob=0.0)
+        if not comps:
+            continue
+        key = B.rkey(r)
+        body = emit(raw_of(comps, key, ciph), 5, key, ciph)
+        bad = body[:-1] + bytes([body[-1] ^ (1 << r.randrange(8))])
+        for label, b in (("valid-first", body), ("after-valid:last-payload-byte-changed,macs-unchanged", bad), ("valid-again", body)):
+            yield cm, label, b, key, body
+
+
 def all_pairs(ctx, r, ciph):
     """every ordered pair of edits on one 3-component base file (thorough tier)"""
     comps = [({0xC3: b"\x02", 1: b"ab"}, b"\x01\x02\x03", 2, False), ({0xC2: b"\x02"}, bytes(range(1, 20)), None, True),
@@ -448,13 +545,15 @@ def correspondence(ctx):
     nfiles = ctx.budget(12, 160) * (3 if ctx.brokens else 1)
     with toycipher.registered():
         cases = list(gen_cases(ctx, r, ciph, nfiles, ctx.budget(3, 10), "corr"))
+        cases += list(ordered_cases(ctx, r, ciph, ctx.budget(6, 60), "corr"))
         for label, body, off, key, check, comps in cases:
-            got = impl_from_binary(body, off, check, key)
+            got = impl_from_binary(body, off, check, key)      # all in this process, in this order
             ctx.case(("corr", label, body, off, key, check), trivial=False)
             ctx.dist["corr:" + ("accept" if got[0] == "ok" else "reject:" + got[1])] += 1
             why = judge(body, off, key, check, ciph, got)
             if why:
-                ctx.fail("reader-accept", {"body": body, "off": off, "key": key, "check": check, "cipher": "toy", "edit": label}, why)
+                ctx.fail("reader-accept", {"body": body, "off": off, "key": key, "check": check, "cipher": "toy", "edit": label,
+                                           "history": comps if label.startswith("ordered:") else []}, why)
             exprs.append("res_eqb (list_eqb comp_eqb) (from_binary toy_dec toy_mac (mkR %s %s) %s %s) %s" % (
                 qbytes(body), qN(off), qbool(check), qbytes(key), qres(got, qcomps_obj)))
             descr.append(("from_binary", label, body, off, key, check, got[0] if got[0] == "err" else "ok"))
@@ -474,11 +573,23 @@ def correspondence(ctx):
             ctx.case(("sig", text, key))
             ok = sig == b"BF3\0\0" and L.reader_accepts(body, 5, key, ciph)[0] is not None
             if (got[0] == "ok") != ok:
-                ctx.fail("reader-accept", {"text": text, "key": key, "check": True, "cipher": "toy", "edit": "signature"},
+                ctx.fail("reader-accept", {"text": text, "key": key, "check": True, "cipher": "toy", "edit": "signature", "expect_ok": ok},
                          "signature %r: reader %s" % (sig, got[0]))
             exprs.append("res_eqb bf3_eqb (read_file toy_dec toy_mac %s true %s) %s" % (
                 B.qstr(text), qbytes(key), qres(got, B.qbf3_obj)))
             descr.append(("read_file", "signature", text, key))
+        for cm, label, body, key, good in ordered_text_cases(r, ciph, ctx.budget(3, 30)):
+            text = B.text_of_binary(cm, b"BF3\0\0" + body)
+            got = B.impl_read(text, True, key)
+            ctx.case(("ordered-text", label, text, key))
+            ok = L.reader_accepts(body, 5, key, ciph)[0] is not None
+            if (got[0] == "ok") != ok:
+                ctx.fail("reader-accept", {"text": text, "key": key, "check": True, "cipher": "toy", "edit": "ordered-text:" + label,
+                                           "expect_ok": ok, "history_text": B.text_of_binary(cm, b"BF3\0\0" + good)},
+                         "read_file (%s): reader %s" % (label, got[0]))
+            exprs.append("res_eqb bf3_eqb (read_file toy_dec toy_mac %s true %s) %s" % (
+                B.qstr(text), qbytes(key), qres(got, B.qbf3_obj)))
+            descr.append(("read_file", "ordered:" + label, text, key))
         if cases:
             ctx.sample({"edit": cases[len(cases) // 2][0], "body": cases[len(cases) // 2][1][:150], "off": cases[len(cases) // 2][2]})
     bad = ctx.coq_eval("c05", IMPORTS, exprs, preamble=B.PRE, shard=60)
@@ -500,17 +611,30 @@ def search(ctx):
     nfiles = ctx.budget(40, 400) * (4 if ctx.brokens else 1)
     stats = {}
 
-    def run(label, body, off, key, check):
+    def run(label, body, off, key, check, hist=()):
         got = impl_from_binary(body, off, check, key)
         ctx.case(("search", label, body, off, key, check))
         fs, rule = L.reader_accepts(body, off, key, ciph, auth=check)
-        st = stats.setdefault(label.split("+")[0] if "+" not in label else "(pair)", [0, 0])
+        st = stats.setdefault("(ordered)" if label.startswith("ordered:") else label if "+" not in label else "(pair)", [0, 0])
         st[0 if fs is None else 1] += 1
         why = judge(body, off, key, check, ciph, got)
         if why:
-            ctx.fail("reader-accept", {"body": body, "off": off, "key": key, "check": check, "cipher": "aes", "edit": label}, why)
+            ctx.fail("reader-accept", {"body": body, "off": off, "key": key, "check": check, "cipher": "aes", "edit": label,
+                                       "history": list(hist)}, why)
     for label, body, off, key, check, comps in gen_cases(ctx, r, ciph, nfiles, ctx.budget(4, 12), "search"):
         run(label, body, off, key, check)
+    # order-sensitive sequences in this one process (a reader must not remember earlier verdicts)
+    for label, body, off, key, check, hist in ordered_cases(ctx, r, ciph, ctx.budget(14, 200) * (4 if ctx.brokens else 1), "search"):
+        run(label, body, off, key, check, hist)
+    for cm, label, body, key, good in ordered_text_cases(r, ciph, ctx.budget(6, 80)):
+        text = B.text_of_binary(cm, b"BF3\0\0" + body)
+        got = B.impl_read(text, True, key)
+        ctx.case(("ordered-text", label, text, key))
+        ok = L.reader_accepts(body, 5, key, ciph)[0] is not None
+        if (got[0] == "ok") != ok:
+            ctx.fail("reader-accept", {"text": text, "key": key, "check": True, "cipher": "aes", "edit": "ordered-text:" + label,
+                                       "expect_ok": ok, "history_text": B.text_of_binary(cm, b"BF3\0\0" + good)},
+                     "read_file (%s): reader %s" % (label, got[0]))
     # more than 255 entries (entry index beyond one byte), and a payload beyond 65535 bytes
     key = B.rkey(r)
     many = raw_of([({}, bytes([1 + j % 255]), None, False) for j in range(257)], key, ciph)
@@ -535,7 +659,7 @@ def search(ctx):
         ctx.case(("sig", text, key))
         ok = sig == b"BF3\0\0" and L.reader_accepts(body, 5, key, ciph)[0] is not None
         if (got[0] == "ok") != ok:
-            ctx.fail("reader-accept", {"text": text, "key": key, "check": True, "cipher": "aes", "edit": "signature"},
+            ctx.fail("reader-accept", {"text": text, "key": key, "check": True, "cipher": "aes", "edit": "signature", "expect_ok": ok},
                      "signature %r: reader %s" % (sig, got[0]))
     ctx.extra["edits_invalid_valid"] = {k: v for k, v in sorted(stats.items())}
     ctx.extra["rule"] = ("base files as in C01 (0-4 components incl. session-key encrypted, 0-6 tags, declared length >= 1), "
@@ -558,10 +682,15 @@ def replay(ctx, data):
 
             def go():
                 if "text" in d:
+                    if d.get("history_text"):
+                        print(" (earlier read in the same process: %s)" % B.impl_read(d["history_text"], True, key)[0])
                     got = B.impl_read(d["text"], d["check"], key)
                     print(" replay on /repo: read_file ->", got[0], got[1] if got[0] == "err" else view_impl(got[1]))
-                    return True
+                    return (got[0] == "ok") != d.get("expect_ok", got[0] != "ok")
                 body = bytes.fromhex(d["body"]["hex"])
+                for hb, hc in d.get("history", []):      # earlier reads of the same process, in order
+                    h = impl_from_binary(bytes.fromhex(hb["hex"]), d["off"], hc, key)
+                    print(" (earlier read in the same process: %s)" % h[0])
                 got = impl_from_binary(body, d["off"], d["check"], key)
                 print(" replay on /repo: from_binary ->", got[0], got[1] if got[0] == "err" else view_impl(got[1]))
                 print(" validator:", L.reader_accepts(body, d["off"], key, ciph, auth=d["check"])[1] or "well-formed")
